@@ -65,6 +65,7 @@ import GoMC.Lemmas.WritersChunk
 import GoMC.Lemmas.WritersChat
 import GoMC.Lemmas.ChatWire
 import GoMC.Props.C17
+import GoMC.Props.C10
 namespace GoMC.Props.C09
 open GoMC GoMC.Model GoMC.Spec GoMC.Lemmas
 open GoMC.Lemmas.NBTDecode (S15 isNet)
@@ -680,6 +681,41 @@ open GoMC.Model.Chat GoMC.Model.ChatNBT in
 theorem C09_writer_fault_chat_type (t : ChatType) (hs : ∃ r, writeTo t.sender = Res.ok r)
     (ht : ∀ m, t.target = some m → ∃ r, writeTo m = Res.ok r) (k : Nat) (hk : k < (typeEnc msgCodecFresh t).1.length) :
     (wType t ⟨[], some k⟩).1 = Res.err := (WChat.exact_wType t hs ht).fault k hk
+
+/-! ## `net.Conn`: switching the cipher on in mid-stream (login flow) -/
+
+/-- Switching the cipher does not drop bytes: in the model, what `Conn.ReadPacket` (any read program `p`) run through
+the plain `Conn.Reader` leaves unread IS what the socket still holds — result and residual stream of `connRead p` are
+those of `p` on the socket itself — and `SetCipher` installs the decrypting reader on exactly that residual stream.
+(This is where a read-ahead buffer between `Conn.Reader` and the socket would break the property:
+`C10.C10_switch_readahead_loses`.) -/
+theorem C09_conn_cipher_same_residual {α : Type} (p : Rd α) (E : Bytes → Bytes) (bs : Nat) (iv : Bytes) (socket : Stream) :
+    CFB8.connRead p socket = p socket ∧
+    CFB8.connSetCipher E bs iv (CFB8.connRead p socket).2 = CFB8.streamReader E bs (CFB8.newCFB8 iv) (p socket).2 :=
+  ⟨rfl, rfl⟩
+
+/-- the plain part of the exchange is fragmentation invariant, residual included (instance of `FragInv`) -/
+theorem C09_frag_conn_plain {α : Type} (p : Rd α) (hp : Rd.FragInv p) (s t : Stream) (h : Stream.Equiv s t) :
+    (CFB8.connRead p s).1 = (CFB8.connRead p t).1 ∧ Stream.Equiv (CFB8.connRead p s).2 (CFB8.connRead p t).2 :=
+  hp s t h
+
+/-- Fragmentation invariance of `ReadPacket … SetCipher … ReadPacket`: the peer sends plain bytes `pre` (consumed
+exactly by the read program `p`, which never looks ahead: `Rd.ExtStable`, the hypothesis of `Rd.prefix_fails`), switches
+its cipher on and sends `ws` encrypted.  For ANY two deliveries `s`, `t` of those bytes — also when one socket read
+returns the plain tail together with ciphertext — `p` returns the same value and the reader installed by `SetCipher`
+yields the same bytes, namely all of `ws`: nothing is lost at the switch.  (From `C10.C10_switch_transparent`.) -/
+theorem C09_frag_conn_cipher {α : Type} {E : Bytes → Bytes} {bs : Nat} (hG : Lemmas.CFB8.Good E bs)
+    (iv : Bytes) (hiv : iv.length = bs) (pre : Bytes) (ws : List Bytes) (p : Rd α) (hp : Rd.ExtStable p)
+    (s₀ s₀' : Stream) (a : α) (h₀ : p s₀ = (.ok a, s₀')) (hpre : s₀.flat = pre) (hall : s₀'.flat = [])
+    (s t : Stream) (hs : s.flat = pre ++ Spec.CFB8.enc E iv ws.flatten) (ht : t.flat = s.flat) :
+    ∃ s' s'' t' t'', CFB8.connRead p s = (.ok a, s') ∧ CFB8.connRead p t = (.ok a, t') ∧
+      CFB8.connSetCipher E bs iv s' = .ok s'' ∧ CFB8.connSetCipher E bs iv t' = .ok t'' ∧
+      s''.flat = ws.flatten ∧ t''.flat = ws.flatten := by
+  obtain ⟨ct, _, _, hct, h⟩ := C10.C10_switch_transparent hG iv hiv pre ws p hp s₀ s₀' a h₀ hpre hall
+  subst hct
+  obtain ⟨s', s'', h1, h2, h3, _⟩ := h s hs
+  obtain ⟨t', t'', g1, g2, g3, _⟩ := h t (ht.trans hs)
+  exact ⟨s', s'', t', t'', h1, g1, h2, g2, h3, g3⟩
 
 /-! ## Non-vacuity -/
 
